@@ -80,6 +80,25 @@ if "custom" in req:
     r = G.get_radii(arr, np.array(req["custom"]["nums"]))
     out["custom_same_object"] = bool(r is arr)
     out["custom_equal"] = bool(np.array_equal(r, arr))
+    # custom per-atom arrays of many lengths (among them the lengths of the element tables), several species in an order
+    # unrelated to the atomic numbers: returned unchanged, whatever the length
+    import random as _random
+    rr = _random.Random(req["custom"].get("seed", 0))
+    bad = []
+    lengths = sorted(set([1, 2, 3, 7, 50, 95, 96, 97, 102, 103, 104, 105, 117, 118, 119, 120, 121, 150, 200]
+                         + [len(getattr(__import__("ase.data", fromlist=["x"]), nm)) for nm in ("covalent_radii", "atomic_numbers", "chemical_symbols")]
+                         + [len(__import__("ase.data.vdw_alvarez", fromlist=["vdw_radii"]).vdw_radii)]))
+    for n in lengths:
+        nums = [rr.choice([1, 8, 55, 56, 29, 3]) for _ in range(n)]
+        a = np.array([round(rr.uniform(0.2, 3.0), 4) for _ in range(n)])
+        a0 = a.copy()
+        try:
+            got = G.get_radii(a, np.array(nums))
+            if not (np.shape(got) == a0.shape and np.array_equal(got, a0) and np.array_equal(a, a0)):
+                bad.append({"length": n, "numbers": nums[:12], "array": a0.tolist()[:12], "got": np.asarray(got).tolist()[:12]})
+        except Exception as e:
+            bad.append({"length": n, "error": type(e).__name__ + ": " + str(e)[:100]})
+    out["custom_lengths"] = {"tried": lengths, "bad": bad[:5]}
 def one_consumer(at, case, p):
     arr = G.get_radii(p, at.get_atomic_numbers())
     if np.isnan(arr).any():
